@@ -47,6 +47,22 @@ pub fn literals(th: bool) -> Vec<String> {
         }
         out.insert(format!("{}{}{}{}", sign, i, f, e));
     }}}}
+    // redundant zeros: long runs of leading zeros in the integer part and in the exponent, and
+    // 0.000..0ddd mantissas lifted back by a positive exponent (always included, also in the quick tier)
+    for sign in ["", "-", "+"] { for z in [20usize, 30, 45, 60] {
+        let zs = "0".repeat(z);
+        for d in ["1", "12345", "123456789012345678", "170141183460469231731687303715884105727"] {
+            out.insert(format!("{}{}{}", sign, zs, d));
+            out.insert(format!("{}{}{}.5", sign, zs, d));
+            out.insert(format!("{}{}{}.{}", sign, zs, d, zs));
+            for k in [0usize, 5, 18, 19] {
+                out.insert(format!("{}0.{}{}e{}", sign, zs, d, z + k));
+                out.insert(format!("{}0.{}{}e+{}", sign, zs, d, z + d.len() + k));
+                out.insert(format!("{}{}e{}{}", sign, d, zs, k));
+                out.insert(format!("{}{}.5e-{}{}", sign, d, zs, k));
+            }
+        }
+    }}
     // lexer-valid, parser-invalid
     for s in ["1_000", "0x1F", "0b11", "0o7", "1_0.5", "-0x10"] { out.insert(s.to_string()); }
     out.into_iter().collect()
